@@ -132,7 +132,9 @@ struct explorer
     }
     void setup(const vec& s)
     {
-        std::memset(raw, 0xEE, TOTAL);
+        // position-dependent background: a stray copy of bytes from outside the payload must be visible
+        for(std::size_t i = 0; i < TOTAL; i++)
+            raw[i] = (unsigned char)(0x80 | ((i * 13 + 5) & 0x3f));
         put_len(s.size());
         for(std::size_t i = 0; i < s.size(); i++)
             raw[FRONT + L + i] = (unsigned char)s[i];
